@@ -38,7 +38,7 @@ ASSUMPTIONS = [
     "TextGrid times are compared to the written values within one unit of the last printed digit",
     "ctm times: exact on dyadic grids, 1e-9 otherwise (start + (end - start) is not always end in binary)",
     "tokens avoid the delimiters of their format (trn: (){}/ and white space; ctm: white space and ';;'; TextGrid: '\"' and newlines)",
-    "TextGrid transcripts are time-ordered and non-overlapping (a tier); entries with identical printed times may come back in any order",
+    "TextGrid transcripts are time-ordered and non-overlapping (a tier); entries with identical printed times come back in written order",
     "fork pool observed through a wrapper of _parsing._trn_line_to_transcript installed in the parent before the fork; time.monotonic comparable across processes",
     "USE_JIT off (library runs as plain Python)",
 ]
@@ -465,6 +465,10 @@ def _tg_body(case, mon, tmp, holder):
                   observed_full=full, file=text)
         if k > j:
             mon.stat("tg_tied_group")
+            # ... and simultaneous entries come back in the order they were written (what was written is a
+            # sequence; a reader that re-orders entries with identical times, say by label, returns another one)
+            mon.check([x[0] for x in entries[j:k + 1]] == [x[0] for x in tr[j:k + 1]], "roundtrip:tg-tie-order",
+                      observed=[x[0] for x in entries[j:k + 1]], expected=[x[0] for x in tr[j:k + 1]], file=text)
         j = k + 1
     for (tok, s, e), (_, s0, e0) in zip(entries, tr):
         mon.close(s, s0, slack(s0), "tg-start", precision=p, token=tok, file=text)
